@@ -19,7 +19,30 @@ TEXTS = ['plain', 'a<b>&c', '"q" \'s\'', 'l1\nl2\r\nl3\rend', '\ttab', '  pad  '
 DO = ['merge', 'replace', 'none', 'Merge', ' none', 'delete', '']
 TO = ['test-then-set', 'set', 'test-only', 'TEST-ONLY', 'test_only', 'set ', 'check']
 EO = ['stop-on-error', 'continue-on-error', 'rollback-on-error', 'Rollback-On-Error', 'rollback_on_error', 'abort']
-OPS = ['edit', 'edit', 'edit', 'lock', 'unlock', 'getconfig', 'delete', 'copy', 'validate', 'commit', 'commit', 'cancel', 'discard', 'kill', 'close']
+OPS = ['edit', 'edit', 'edit', 'lock', 'unlock', 'getconfig', 'delete', 'copy', 'validate', 'commit', 'commit', 'cancel', 'discard', 'kill', 'close',
+       'get', 'get', 'getcf', 'getcf', 'disp', 'sub']
+WD_CAPS = [CAP + 'with-defaults:1.0?basic-mode=explicit&also-supported=report-all,trim,report-all-tagged', CAP + 'with-defaults:1.0?basic-mode=report-all',
+           CAP + 'with-defaults:1.0?also-supported=trim', CAP + 'with-defaults:1.0', CAP + 'with-defaults:1.0?basic-mode=trim&also-supported=',
+           'urn:ietf:params:xml:ns:netconf:capability:with-defaults:1.0?basic-mode=explicit&also-supported=trim', None, None]
+WD_MODES = ['explicit', 'trim', 'report-all', 'report-all-tagged', ' Trim ', 'TRIM', 'Report-All\n', 'bogus', 'ex plicit', 'trim,', '\ttrim', 'trim\x0b']
+RETRIEVE = ('get', 'getcf', 'disp', 'sub')
+
+
+def gen_filter(rng, plain_tree):
+    r = rng.random()
+    if r < 0.25:
+        return None
+    if r < 0.45:
+        return ['xpath', rng.choice(TEXTS + ['/a/b[c="x"]', "//if[name='e0']", '/p:a/p:b'])]
+    if r < 0.65:
+        return ['subtree', plain_tree(rng)]
+    if r < 0.75:
+        return ['subtrees', [plain_tree(rng) for _ in range(rng.choice([0, 1, 2, 3]))]]
+    if r < 0.82:
+        return ['other', rng.choice(['Xpath', 'sub-tree', '', 'regex'])]
+    t = plain_tree(rng)
+    t[1] = 'filter' if rng.random() < 0.75 else rng.choice(['fltr', 'config'])
+    return ['element', t, rng.random() < 0.6]          # third item: root in the base namespace (nc:filter) or un-qualified
 
 
 def loc(rng):
@@ -64,7 +87,20 @@ def gen(rng, plain_tree):
         a = {'pid': opt(rng, TEXTS + [''])}
     elif op == 'kill':
         a = {'sid': text(rng)}
+    elif op == 'get':
+        a = {'filter': gen_filter(rng, plain_tree), 'wd': opt(rng, WD_MODES, 0.6)}
+    elif op == 'getcf':
+        a = {'source': loc(rng), 'filter': gen_filter(rng, plain_tree), 'wd': opt(rng, WD_MODES, 0.5)}
+    elif op == 'disp':
+        a = {'cmd': rng.choice(NAMES + ['get-system-info', 'clear-arp-table']), 'source': loc(rng) if rng.random() < 0.4 else None, 'filter': gen_filter(rng, plain_tree)}
+    elif op == 'sub':
+        a = {'filter': gen_filter(rng, plain_tree), 'stream': opt(rng, TEXTS + ['NETCONF'], 0.5), 'start': opt(rng, ['2020-01-01T00:00:00Z'] + TEXTS, 0.5),
+             'stop': opt(rng, ['2021-01-01T00:00:00Z'] + TEXTS, 0.4)}
     uris = [u for u in GATING_CAPS if rng.random() < 0.7]
+    if op in RETRIEVE:
+        w = rng.choice(WD_CAPS)
+        uris += ([w] if w else []) + ([CAP + 'notification:1.0'] if rng.random() < 0.7 else []) + ([CAP + 'xpath:1.0'] if rng.random() < 0.5 else [])
+        rng.shuffle(uris)
     # profiles that write the same `nc:`-prefixed envelope and do not override these operations
     return {'kind': 'build', 'op': op, 'args': a, 'uris': uris, 'profile': rng.choice(['default', 'default', 'iosxr', 'csr'])}
 
@@ -82,6 +118,7 @@ def run_impl(case, plain_build, plain_from_etree):
     from impl.rpcstub import make_manager
     from ncclient.operations.errors import MissingCapabilityError, OperationError
     from ncclient.xml_ import XMLError
+    from ncclient.operations.retrieve import WithDefaultsError
     from lxml import etree
     a, op = case['args'], case['op']
     m, s, dh = make_manager(profile=case.get('profile', 'default'), raise_mode=0, server_caps=list(case['uris']),
@@ -135,10 +172,50 @@ def run_impl(case, plain_build, plain_from_etree):
             m.kill_session(a['sid'])
         elif op == 'close':
             m.close_session()
+        elif op in RETRIEVE:
+            f = a['filter']
+            if f is None:
+                flt = None
+            elif f[0] in ('xpath', 'other'):
+                flt = ('xpath' if f[0] == 'xpath' else f[1], f[1] if f[0] == 'xpath' else 'criteria')
+            elif f[0] == 'subtree':
+                flt = ('subtree', plain_build(f[1]))
+            elif f[0] == 'subtrees':
+                flt = [plain_build(t) for t in f[1]]
+            else:
+                t = f[1]
+                if f[2]:
+                    from ncclient.xml_ import new_ele
+                    root = new_ele(t[1], dict(t[2]))
+                else:
+                    root = etree.Element(t[1])
+                    for k, v in t[2]:
+                        root.set(k, v)
+                last = None
+                for c in t[3]:
+                    if c[0] == 'T':
+                        if last is None:
+                            root.text = c[1]
+                        else:
+                            last.tail = c[1]
+                    else:
+                        last = plain_build(c)
+                        root.append(last)
+                flt = root
+            if op == 'get':
+                m.get(filter=flt, with_defaults=a['wd'])
+            elif op == 'getcf':
+                m.get_config(source=a['source'], filter=flt, with_defaults=a['wd'])
+            elif op == 'disp':
+                m.dispatch(a['cmd'], source=a['source'], filter=flt)
+            else:
+                m.create_subscription(filter=flt, stream_name=a['stream'], start_time=a['start'], stop_time=a['stop'])
         out = 'ok'
     except MissingCapabilityError as e:
         mm = re.search(r'\[(.*)\]', str(e))
         out = 'missing:' + (mm.group(1) if mm else '?')
+    except WithDefaultsError:
+        out = 'withdefaults'
     except XMLError:
         out = 'xml'
     except OperationError:
@@ -200,6 +277,25 @@ def model_line(case):
         return '%s %s' % (head, o(a['pid']))
     if op == 'kill':
         return '%s %s' % (head, hexs(a['sid']))
+    if op in RETRIEVE:
+        f = a['filter']
+        if f is None:
+            ft = '-'
+        elif f[0] in ('xpath', 'other'):
+            ft = '%s %s' % (f[0], hexs(f[1]))
+        elif f[0] == 'subtree':
+            ft = 'subtree ' + ' '.join(tree_toks(f[1], nc_root=False))
+        elif f[0] == 'subtrees':
+            ft = ' '.join(['subtrees', str(len(f[1]))] + [x for t in f[1] for x in tree_toks(t, nc_root=False)])
+        else:
+            ft = 'element ' + ' '.join(tree_toks(f[1], nc_root=f[2]))
+        if op == 'get':
+            return '%s %s %s' % (head, o(a['wd']), ft)
+        if op == 'getcf':
+            return '%s %s %s %s' % (head, hexs(a['source']), o(a['wd']), ft)
+        if op == 'disp':
+            return '%s %s %s %s' % (head, hexs(a['cmd']), o(a['source']), ft)
+        return '%s %s %s %s %s' % (head, o(a['stream']), o(a['start']), o(a['stop']), ft)
     return head
 
 
@@ -207,6 +303,8 @@ def model_obs(out):
     t = out.split(' ')
     if t[0] == 'ok':
         return {'out': 'ok', 'ser': unhexs(t[1]), 'params': [unhexs(x) for x in unhlist(t[2])]}
+    if t[0] != 'err':
+        return {'out': 'driver:' + out[:60]}
     if t[1] == 'missing':
         return {'out': 'missing:' + unhexs(t[2])}
     return {'out': t[1]}
@@ -214,7 +312,7 @@ def model_obs(out):
 
 def has_empty_text(case):
     a = case['args']
-    return any(a.get(k) == '' for k in ('timeout', 'persist', 'pid', 'sid', 'cfg') if isinstance(a.get(k), str))
+    return any(a.get(k) == '' for k in ('timeout', 'persist', 'pid', 'sid', 'cfg', 'stream', 'start', 'stop', 'wd') if isinstance(a.get(k), str))
 
 
 def compare(case, io, mo):
@@ -234,7 +332,9 @@ def compare(case, io, mo):
 
 RFC_ORDER = {'edit': ['target', 'default-operation', 'test-option', 'error-option', 'config', 'config-text', 'url'], 'copy': ['target', 'source'],
              'commit': ['confirmed', 'confirm-timeout', 'persist', 'persist-id'], 'getconfig': ['source'], 'delete': ['target'], 'validate': ['source'],
-             'lock': ['target'], 'unlock': ['target'], 'cancel': ['persist-id'], 'kill': ['session-id'], 'discard': [], 'close': []}
+             'lock': ['target'], 'unlock': ['target'], 'cancel': ['persist-id'], 'kill': ['session-id'], 'discard': [], 'close': [],
+             'get': ['filter', 'with-defaults'], 'getcf': ['source', 'filter', 'with-defaults'], 'disp': ['source', 'filter'],
+             'sub': ['filter', 'stream', 'startTime', 'stopTime']}
 ENUMS = {'default-operation': ['merge', 'replace', 'none'], 'test-option': ['test-then-set', 'set', 'test-only'],
          'error-option': ['stop-on-error', 'continue-on-error', 'rollback-on-error']}
 
@@ -266,7 +366,27 @@ def required(case):
         return [':candidate', ':confirmed-commit']
     if op == 'discard':
         return [':candidate']
+    if op == 'get':
+        return [':with-defaults'] if a['wd'] is not None else []
+    if op == 'getcf':
+        return url(a['source']) + ([':with-defaults'] if a['wd'] is not None else [])
+    if op == 'disp':
+        return url(a['source'])
+    if op == 'sub':
+        return [':notification']
     return []
+
+
+def advertised_modes(uris):
+    """Independent reading of RFC 6243 section 4.3: the modes of the FIRST with-defaults capability URI in the list."""
+    for u in uris:
+        m = re.match(r'^urn:ietf:params:(?:xml:ns:)?netconf:capability:with-defaults:1\.0(?:\?(.*))?$', u)
+        if m:
+            q = dict(p.split('=') for p in (m.group(1) or '').split('&') if p.count('=') == 1)
+            if 'basic-mode' not in q:
+                return None
+            return [q['basic-mode']] + (q['also-supported'].split(',') if 'also-supported' in q else [])
+    return None
 
 
 def server_has(uris, short):
@@ -280,7 +400,7 @@ def server_has(uris, short):
 
 def oracle(case, io, pid):
     a, op = case['args'], case['op']
-    tag = '%s%s' % (op, {k: v for k, v in a.items() if k != 'cfg'})
+    tag = '%s%s' % (op, {k: v for k, v in a.items() if k not in ('cfg', 'filter')})
     if io['out'].startswith('other:'):
         return (pid + ':builder-unexpected-exception:' + op, '%s raised %s' % (tag, io['out']))
     if io['out'] != 'ok':
@@ -291,6 +411,10 @@ def oracle(case, io, pid):
     miss = [c for c in required(case) if not server_has(case['uris'], c)]
     if miss:
         return (pid + ':sent-without-capability:' + op, '%s was sent although the server does not advertise %s' % (tag, miss))
+    if op in ('get', 'getcf') and a['wd'] is not None:
+        modes = advertised_modes(case['uris'])
+        if modes is None or a['wd'].strip().lower() not in modes:
+            return (pid + ':with-defaults-mode-not-advertised:' + op, '%s was sent with with-defaults %r although the server advertises the modes %s' % (tag, a['wd'], modes))
     names = [p.split('}')[-1] for p in io['params']]
     it = iter(RFC_ORDER[op])
     if not all(n in it for n in names):
